@@ -4,6 +4,7 @@ C12 — PES headers and timestamps are decoded and encoded per ISO 13818-1.
 import Astits.Proofs.Layout
 import Astits.Proofs.PESRT
 import Astits.Generated.Exprs
+import Astits.Proofs.SpecEq.PES
 namespace Astits.C12
 
 /-- PTS and DTS: all 2^33 values, whatever the 4-bit prefix ('0010', '0011', '0001') -/
@@ -211,5 +212,123 @@ example : PESHeaderOk exPadding := by
   refine ⟨by decide, ?_⟩
   rw [if_neg (by decide)]
   rfl
+
+/-! ## W2 — the PES writer emits exactly the standard's layout: `pesHeaderBytes` / `writePESData` = the independent
+reference encoder `Spec.pesEncode` (Astits/Spec/PES.lean: ISO/IEC 13818-1 table 2-21 transcribed with `Spec.enc`).
+Helper development: Astits/Proofs/SpecEq/{Enc,TS,PES}.lean. -/
+
+section WriterEqSpec
+open Astits.SpecEq
+
+/-- **optional PES header**, every flag combination (`SpecEq.PESOptAgree`: no CRC, no pack header, 16 bytes of private
+data, non-negative timestamps, 1-bit intra_slice_refresh; no upper bound on any numeric field is needed — both sides
+mask alike, PES_header_data_length included) -/
+theorem pes_optional_eq_spec (oh : PESOptionalHeader) (ag : PESOptAgree oh) :
+    pesOptionalHeaderBytes oh = Spec.pesOptionalEncode oh 0 := (optEncode_eq oh ag).symm
+
+/-- **W2**: start code prefix, stream id, PES_packet_length, optional header, payload -/
+theorem pes_written_eq_spec (h : PESHeader) (payload : Bytes) (ag : PESAgree h payload.length) :
+    pesHeaderBytes h payload.length ++ payload = Spec.pesEncode h 0 payload := (pesEncode_eq h payload ag).symm
+
+/-- the header part alone -/
+theorem pes_header_eq_spec (h : PESHeader) (n : Nat) (ag : PESAgree h n) :
+    pesHeaderBytes h n = Spec.pesEncode h 0 [] := pesHeader_eq h n ag
+
+/-- **W2** for `writePESData`: the first TS packet of a PES unit carries the first `bytesAvailable` bytes of the reference
+PES packet (the whole of it when it fits); the counts returned are the bytes emitted and the payload bytes among them -/
+theorem writePESData_first_eq_spec (h : PESHeader) (payload : Bytes) (avail : Nat) (ag : PESAgree h payload.length)
+    (hnil : (h.optionalHeader.map pesOptNilDeref).getD false = false)
+    (hav : (pesHeaderBytes h payload.length).length ≤ avail) :
+    writePESData h payload true (avail : Int) =
+      .ok ((Spec.pesEncode h 0 payload).take avail,
+           min avail (Spec.pesEncode h 0 payload).length,
+           min (avail - (pesHeaderBytes h payload.length).length) payload.length) :=
+  writePESData_first_eq h payload avail ag hnil hav
+
+/-- **W2** under the hypothesis of `pes_roundtrip` (`PESHeaderOk`) plus the PES_packet_length rule -/
+theorem pes_written_eq_spec_ok (h : PESHeader) (payload : Bytes) (ok : PESHeaderOk h)
+    (hl : h.packetLength = pesPacketLengthFor h payload.length) :
+    pesHeaderBytes h payload.length ++ payload = Spec.pesEncode h 0 payload :=
+  pes_written_eq_spec h payload (pesAgree_of_ok h _ ok hl)
+
+theorem writePESData_first_eq_spec_ok (h : PESHeader) (payload : Bytes) (avail : Nat) (ok : PESHeaderOk h)
+    (hl : h.packetLength = pesPacketLengthFor h payload.length)
+    (hav : (pesHeaderBytes h payload.length).length ≤ avail) :
+    writePESData h payload true (avail : Int) =
+      .ok ((Spec.pesEncode h 0 payload).take avail,
+           min avail (Spec.pesEncode h 0 payload).length,
+           min (avail - (pesHeaderBytes h payload.length).length) payload.length) :=
+  writePESData_first_eq h payload avail (pesAgree_of_ok h _ ok hl) (pesNilDeref_of_ok h ok) hav
+
+/-- hence the reference bytes parse back (bounded packets) -/
+theorem parse_pesEncode (h : PESHeader) (payload : Bytes) (ok : PESHeaderOk h)
+    (hl : h.packetLength = pesPacketLengthFor h payload.length) :
+    parsePESData.val (Spec.pesEncode h 0 payload) = .ok { data := payload, header := h } := by
+  rw [← pes_written_eq_spec_ok h payload ok hl]
+  unfold P.val
+  rw [pes_roundtrip h payload ok, ← hl]
+
+/-! ### non-vacuity, and the excluded points evaluated -/
+
+theorem exFullOpt_agree : PESOptAgree exFullOpt :=
+  ⟨rfl, fun _ => rfl, fun _ _ => rfl, fun _ => by decide, fun _ => by decide, fun _ => by decide, fun _ _ => by decide⟩
+
+def exFull : PESHeader := { streamID := 0xc0, optionalHeader := some exFullOpt, packetLength := 51 }
+
+theorem exFull_agree : PESAgree exFull 3 := ⟨by decide +kernel, fun _ => ⟨exFullOpt, rfl, exFullOpt_agree⟩⟩
+
+example : pesHeaderBytes exFull 3 ++ [9, 9, 9] = Spec.pesEncode exFull 0 [9, 9, 9] :=
+  pes_written_eq_spec exFull [9, 9, 9] exFull_agree
+
+/-- the reference bytes: start code, stream id c0, length 0x0033, flags 99 fd, header data length 45, PTS, DTS, … -/
+example : (Spec.pesEncode exFull 0 [9, 9, 9]).take 14 = [0, 0, 1, 0xc0, 0, 0x33, 0x99, 0xfd, 0x2d, 0x3f, 0xff, 0xff, 0xff, 0xff] := by
+  decide +kernel
+
+/-- a first TS packet with room for 56 bytes: the first 56 bytes of the 57-byte reference packet (54 header bytes + 2 of
+the 3 payload bytes) -/
+example : ∃ n k, writePESData exFull [9, 9, 9] true 56 = .ok ((Spec.pesEncode exFull 0 [9, 9, 9]).take 56, n, k) :=
+  ⟨_, _, writePESData_first_eq_spec exFull [9, 9, 9] 56 exFull_agree (by decide +kernel) (by decide +kernel)⟩
+
+def mkAudio (o : PESOptionalHeader) : PESHeader :=
+  { streamID := 0xc0, optionalHeader := some o, packetLength := pesPacketLengthFor { streamID := 0xc0, optionalHeader := some o } 3 }
+
+/-- excluded point 1 (a value the PARSER delivers): `HasCRC = true`.  The writer always clears PES_CRC_flag and drops
+previous_PES_packet_CRC ("not supported yet" in data_pes.go): flags byte 0x00 and PES_header_data_length 0, where the
+reference writes 0x02, length 2 and the CRC 0x1234.  Re-muxing a parsed PES header with a CRC silently loses it. -/
+example : (pesHeaderBytes (mkAudio { markerBits := 2, hasCRC := true, crc := 0x1234 }) 3).drop 6 = [0x80, 0x00, 0x00]
+    ∧ (Spec.pesEncode (mkAudio { markerBits := 2, hasCRC := true, crc := 0x1234 }) 0 []).drop 6 = [0x80, 0x02, 0x02, 0x12, 0x34] := by
+  decide +kernel
+
+/-- excluded point 2 (parser-deliverable): `HasPackHeaderField = true`: the writer clears pack_header_field_flag (0x0e), the
+reference sets it (0x4e); neither writes a pack header -/
+example : (pesHeaderBytes (mkAudio { markerBits := 2, hasExtension := true, hasPackHeaderField := true }) 3).drop 8 = [0x01, 0x0e]
+    ∧ (Spec.pesEncode (mkAudio { markerBits := 2, hasExtension := true, hasPackHeaderField := true }) 0 []).drop 8 = [0x01, 0x4e] := by
+  decide +kernel
+
+/-- excluded point 3: PES private data that is not 16 bytes: `WriteBytesN` pads to 16 (header data length 0x11), the
+reference copies the 3 bytes (0x04) -/
+example : (pesHeaderBytes (mkAudio { markerBits := 2, hasExtension := true, hasPrivateData := true, privateData := [1, 2, 3] }) 3).length = 26
+    ∧ (Spec.pesEncode (mkAudio { markerBits := 2, hasExtension := true, hasPrivateData := true, privateData := [1, 2, 3] }) 0 []).length = 13 := by
+  decide +kernel
+
+/-- excluded point 4: intra_slice_refresh = 3 (not a 1-bit value; the Go field is `uint8`): the writer writes `== 1`, i.e. 0,
+the reference the low bit, i.e. 1 -/
+example : (pesHeaderBytes (mkAudio { markerBits := 2, hasDSMTrickMode := true, dsmTrickMode := some { trickModeControl := 0, intraSliceRefresh := 3 } }) 3).drop 9 = [0x00]
+    ∧ (Spec.pesEncode (mkAudio { markerBits := 2, hasDSMTrickMode := true, dsmTrickMode := some { trickModeControl := 0, intraSliceRefresh := 3 } }) 0 []).drop 9 = [0x04] := by
+  decide +kernel
+
+/-- excluded point 5: a stream id with an optional header but `OptionalHeader = nil`: the writer emits NO optional header
+(the bytes are then not a valid PES packet for this stream id), the reference encodes an empty one -/
+example : pesHeaderBytes { streamID := 0xc0, optionalHeader := none, packetLength := 3 } 3 = [0, 0, 1, 0xc0, 0, 3]
+    ∧ Spec.pesEncode { streamID := 0xc0, optionalHeader := none, packetLength := 3 } 0 [] = [0, 0, 1, 0xc0, 0, 3, 0x80, 0, 0] := by
+  decide +kernel
+
+/-- excluded point 6: `PacketLength` not following the writer's rule — the writer ignores the field: a video stream id
+always gets 0 (the reference writes the value, here 11) -/
+example : (pesHeaderBytes { streamID := 0xe0, optionalHeader := some exAudioOpt, packetLength := 11 } 3).take 6 = [0, 0, 1, 0xe0, 0, 0]
+    ∧ (Spec.pesEncode { streamID := 0xe0, optionalHeader := some exAudioOpt, packetLength := 11 } 0 []).take 6 = [0, 0, 1, 0xe0, 0, 11] := by
+  decide +kernel
+
+end WriterEqSpec
 
 end Astits.C12
